@@ -2,6 +2,8 @@
 import BobModel.Util.Bytes
 import BobModel.Util.Sha1
 import BobModel.Util.Proto
+import BobModel.Props.C02
+import BobModel.Props.C03
 import BobModel.Props.C10
 import BobModel.Props.C11
 import BobModel.Props.C14
